@@ -54,14 +54,17 @@ Print Assumptions C10_validate_guards_missing.
 
 (** ** "Validation and key inspection do not run dataset bodies other than those whose value is
     needed to choose a branch" — for EVERY expression (no fragment), dictionary and user code:
-    every user-code call logged by validate, keys (and explain) happens inside the EVALUATION of a
-    sub-expression in chooser position (bind source, switch/overload dispatch, case dispatch or
-    condition, map iterable, an Option that declares a domain), or is the application of a case
-    condition to the dispatch value ([allowed], Proofs/AgreeProofs.v Part 9). *)
+    every user-code call logged by validate, keys (and explain) of [e] under [o] happens inside
+    the EVALUATION of a sub-expression in chooser position (bind source, switch/overload dispatch,
+    case dispatch or condition, map iterable, an Option that declares a domain) UNDER THE
+    DICTIONARY THAT REACHES IT ([reaches]: [o] itself, overlaid by the pre-set dictionaries of the
+    WithOptions nodes above it, and by the option combination of the current row below a Map), or
+    is the application of a case condition (evaluated under that dictionary) to the dispatch value
+    (evaluated under that dictionary) ([allowed e o evt], Proofs/AgreeProofs.v Part 9). *)
 Theorem C10_validate_keys_run_only_choosers : forall u fuel e o evt,
   is_call evt = true ->
   In evt (snd (validate_nc u fuel e o)) \/ In evt (snd (keys_nc u fuel e o)) \/ In evt (snd (explain_nc u fuel e o)) ->
-  allowed u fuel e evt.
+  allowed u fuel e o evt.
 Proof. exact runs_only_choosers_nc. Qed.
 Print Assumptions C10_validate_keys_run_only_choosers.
 
@@ -113,22 +116,34 @@ Print Assumptions C10_agree_total_refuted_D1.
 (** ** non-vacuity *)
 Example C10_ex_fragments : fragP pA sw_expr = true /\ fragP pG sw_expr = true /\ fragP pA disp_expr = true.
 Proof. repeat split; reflexivity. Qed.
+Print Assumptions C10_ex_fragments.
 Example C10_ex_side_conditions :
   total_u u_total /\ clean_u u_total /\ wf_dict o_Q1 = true /\ resolves 40 o_Q1 /\ untemplated o_Q1 /\ untemplated [].
 Proof.
   exact (conj u_total_total (conj u_total_clean (conj eq_refl (conj resolves_o_Q1 (conj (untemplated_single 14 1) untemplated_nil))))).
 Qed.
+Print Assumptions C10_ex_side_conditions.
 Example C10_ex_all_succeed :
   fst (validate_nc u_total 40 sw_expr o_Q1) = Ok tt /\ fst (keys_nc u_total 40 sw_expr o_Q1) = Ok [kQ] /\
   fst (eval_nc u_total 40 sw_expr o_Q1) = Ok (VJ JNull).
 Proof. repeat split; reflexivity. Qed.
+Print Assumptions C10_ex_all_succeed.
 Example C10_ex_all_fail :
   fst (validate_nc u_total 40 sw_expr o_A1) = Err (CKey kB) true /\ fst (keys_nc u_total 40 sw_expr o_A1) = Err (CKey kB) true /\
   fst (eval_nc u_total 40 sw_expr o_A1) = Err (CKey kB) true.
 Proof. repeat split; reflexivity. Qed.
+Print Assumptions C10_ex_all_fail.
 (** validate runs the dispatch body (101) and not the chosen implementation's body (102);
     evaluate runs both *)
+(** below a WithOptions the dispatch body sees the OVERLAID dictionary: the pre-set A = 7 wins
+    over the caller's A = 1 *)
+Example C10_ex_dispatch_under_overlaid_dictionary :
+  snd (validate_nc u_total 40 (EWith true [(SName 10, JInt 7)] (ESwitch (body 101 [EOption kA None None]) [] (Some (EValue (VJ JNull))))) o_A1)
+    = [EvRead kA true; EvCall 101 [VJ (JInt 7)]].
+Proof. reflexivity. Qed.
+Print Assumptions C10_ex_dispatch_under_overlaid_dictionary.
 Example C10_ex_dispatch_body_runs :
   snd (validate_nc u_total 40 disp_expr o_A1) = [EvCall 101 []; EvRead kA true; EvRead kA true] /\
   snd (eval_nc u_total 40 disp_expr o_A1) = [EvCall 101 []; EvRead kA true; EvCall 102 [VJ (JInt 1)]].
 Proof. split; reflexivity. Qed.
+Print Assumptions C10_ex_dispatch_body_runs.
